@@ -1075,8 +1075,8 @@ Proof.
   repeat match goal with
   | |- context [VAR_PRT =? ?x] => let b := eval vm_compute in (VAR_PRT =? x) in change (VAR_PRT =? x) with b; cbv iota
   end.
-  destruct ((0 <? str2int (ival p)) && (str2int (ival p) <=? 65535)) eqn:E; [|left; reflexivity].
-  apply andb_true_iff in E. destruct E as [E1 E2]. apply Z.ltb_lt in E1. apply Z.leb_le in E2.
+  destruct ((0 <? str2int (ival p)) && (str2int (ival p) <=? 65535) && short_num p) eqn:E; [|left; reflexivity].
+  rewrite !andb_true_iff in E. destruct E as [[E1 E2] _]. apply Z.ltb_lt in E1. apply Z.leb_le in E2.
   right. simp_rec. unfold port_of. rewrite le32_blit_enc32 by (layout; lia).
   unfold s32. rewrite Z.mod_small by lia. replace (2147483648 <=? str2int (ival p)) with false by (symmetry; apply Z.leb_gt; lia). lia.
 Qed.
@@ -1088,8 +1088,8 @@ Proof.
   repeat match goal with
   | |- context [VAR_QOS =? ?x] => let b := eval vm_compute in (VAR_QOS =? x) in change (VAR_QOS =? x) with b; cbv iota
   end.
-  destruct ((48 <=? nthz (ival p) 0) && (nthz (ival p) 0 <=? 50)) eqn:E; [|left; reflexivity].
-  apply andb_true_iff in E. destruct E as [E1 E2]. apply Z.leb_le in E1, E2.
+  destruct ((48 <=? nthz (ival p) 0) && (nthz (ival p) 0 <=? 50) && (nthz (ival p) 1 =? 0)) eqn:E; [|left; reflexivity].
+  rewrite !andb_true_iff in E. destruct E as [[E1 E2] _]. apply Z.leb_le in E1, E2.
   right. simp_rec. unfold setb. rewrite nthz_upd_same by (rewrite L; layout; lia). lia.
 Qed.
 (* tm0..tm3: the stored margin is always inside -1..100 *)
@@ -1097,18 +1097,41 @@ Lemma margin_range c i p : len c = CFG_SIZE -> 0 <= i < 4 ->
   -1 <= s8 (nthz (margin c i p) (O_AdditionalTimeMargin + i)) <= 100.
 Proof.
   intros L Hi. unfold margin. rewrite nthz_upd_same by (rewrite L; layout; lia).
-  set (v := s8 (str2int (ival p))).
-  assert (Hv : -128 <= v <= 127).
-  { unfold v, s8. pose proof (Z.mod_pos_bound (str2int (ival p)) 256 ltac:(lia)).
-    destruct (128 <=? str2int (ival p) mod 256) eqn:E; [apply Z.leb_le in E | apply Z.leb_gt in E]; lia. }
-  destruct ((v <? -1) || (100 <? v)) eqn:E.
+  set (v := str2int (ival p)).
+  destruct (negb (short_num p) || (v <? -1) || (100 <? v)) eqn:E.
   - unfold u8, s8. change (-1 mod 256) with 255. change (255 mod 256) with 255. cbn. lia.
-  - apply orb_false_iff in E. destruct E as [E1 E2]. apply Z.ltb_ge in E1, E2.
+  - rewrite !orb_false_iff in E. destruct E as [[_ E1] E2]. apply Z.ltb_ge in E1, E2.
     unfold u8, s8. rewrite Z.mod_mod by lia.
     destruct (Z_lt_dec v 0).
     + assert (Hm1 : v = -1) by lia. rewrite Hm1. change (-1 mod 256) with 255. cbn. lia.
     + rewrite Z.mod_small by lia. replace (128 <=? v) with false by (symmetry; apply Z.leb_gt; lia). lia.
 Qed.
+(* what is stored is exactly the submitted value when it is valid, and -1 otherwise *)
+Lemma margin_exact c i p : len c = CFG_SIZE -> 0 <= i < 4 ->
+  let v := str2int (ival p) in
+  s8 (nthz (margin c i p) (O_AdditionalTimeMargin + i)) = (if short_num p && (-1 <=? v) && (v <=? 100) then v else -1).
+Proof.
+  intros L Hi. cbv zeta. unfold margin. rewrite nthz_upd_same by (rewrite L; layout; lia).
+  set (v := str2int (ival p)). destruct (short_num p); cbn [negb orb andb].
+  - destruct (v <? -1) eqn:E1; cbn [orb].
+    + apply Z.ltb_lt in E1. replace (-1 <=? v) with false by (symmetry; apply Z.leb_gt; lia). reflexivity.
+    + apply Z.ltb_ge in E1. replace (-1 <=? v) with true by (symmetry; apply Z.leb_le; lia). cbn [andb].
+      destruct (100 <? v) eqn:E2.
+      * apply Z.ltb_lt in E2. replace (v <=? 100) with false by (symmetry; apply Z.leb_gt; lia). reflexivity.
+      * apply Z.ltb_ge in E2. replace (v <=? 100) with true by (symmetry; apply Z.leb_le; lia).
+        unfold u8, s8. rewrite Z.mod_mod by lia. destruct (Z_lt_dec v 0).
+        -- assert (Hm1 : v = -1) by lia. rewrite Hm1. reflexivity.
+        -- rewrite Z.mod_small by lia. replace (128 <=? v) with false by (symmetry; apply Z.leb_gt; lia). reflexivity.
+  - reflexivity.
+Qed.
+(* the code before the repair accepted out-of-range values: "356" was stored as 100 *)
+Definition ival_356 : list Z := [51; 53; 54; 0; 0; 0; 0; 0; 0; 0; 0; 0].
+Lemma C14_margin_narrowing_refuted_thm :
+  let p := set_ival pv0 ival_356 in
+  str2int (ival p) = 356 /\
+  s8 (nthz (margin_old (zeros CFG_SIZE) 0 p) O_AdditionalTimeMargin) = 100 /\
+  s8 (nthz (margin (zeros CFG_SIZE) 0 p) O_AdditionalTimeMargin) = -1.
+Proof. vm_compute. repeat split. Qed.
 
 (* ---------- the code before the repairs: concrete failing requests ---------- *)
 Definition bytes_of_ascii (l : list Z) := l.
